@@ -167,6 +167,24 @@ class A(Adapter):
                          f"expected {want}", info)
             ctx.nontrivial.add((self.name, "w3lastpellet", cfg.cid, n))
 
+    def consistent_states(self, env, runner, rng, n):
+        """states play rarely reaches (C07 / C05 / C09 sweeps): the player relocated to free cells, the free BORDER cells first — the mouths
+        of the tunnels, where a move leaves the grid on one side and must re-enter on the other"""
+        import jax
+        import jax.numpy as jnp
+        from jumanji.environments.routing.pac_man.types import Position
+
+        s0, _ = runner.reset(jax.random.PRNGKey(int(rng.integers(1 << 31))))
+        g = np.asarray(s0.grid)
+        free = [tuple(int(v) for v in c) for c in np.argwhere(g == 1)]
+        border = [c for c in free if c[0] in (0, g.shape[0] - 1) or c[1] in (0, g.shape[1] - 1)]
+        inner = [c for c in free if c not in border]
+        rng.shuffle(border)
+        picks = border[:max(2, n // 2)]
+        picks += [inner[int(i)] for i in rng.choice(len(inner), size=min(len(inner), max(1, n - len(picks))), replace=False)] if inner else []
+        dt = jnp.asarray(s0.player_locations.x).dtype
+        return [s0.replace(player_locations=Position(x=jnp.asarray(c[0], dt), y=jnp.asarray(c[1], dt))) for c in picks[:n]]
+
     def reaction_invalid(self, env, s, a, s2, ts):
         """the move was not carried out: the player is where it was"""
         return bool(int(s2.player_locations.x) == int(s.player_locations.x)
